@@ -405,9 +405,14 @@ def check_program(data: dict, lab: Labels) -> None:
                 Bomb.nested_call = lambda: ordered(probe.as_dict())
                 desc += " nested-call"
                 lab.tag("nested-call-inside-serialization")
+            n_sources = len(Source.list_registered_sources())
             try:
                 out = _call_ser(node, fmt, opts, dialect)
                 require(armed is None, "armed-bomb-did-not-raise", desc)
+                # writing a tree leaves nothing behind, in the source registry either (later index-based
+                # output and `Source.all_as_dict()` depend on it)
+                require(len(Source.list_registered_sources()) == n_sources, "options-leaked-into-later-serialization",
+                        f"{desc}: the call registered {len(Source.list_registered_sources()) - n_sources} new source(s)")
             except M.load().BombError:
                 require(armed is not None, "unexpected-bomb", desc)
                 out = None
